@@ -325,9 +325,14 @@ CLAIMED = {
             "For <= 3 device wires, every (quick: every second) ordered selection of measured wires, identity and permuted wire "
             "orders and the enumerated key sets, with ALL count and eigenvalue values: mapped[s] is the sum of the counts whose "
             "restriction is s (totals preserved); all_outcomes gives exactly the 2^n strings with zeros for unobserved ones, "
-            "otherwise exactly the non-zero ones; the eigenvalue branch sums per distinct eigenvalue (4994 VCs).",
-            "Size-bounded (counts dictionaries only); process_samples / _samples_to_counts (numpy code) and every other "
-            "measurement's sample post-processing are not covered.",
+            "otherwise exactly the non-zero ones; the eigenvalue branch sums per distinct eigenvalue. process_samples of "
+            "sample / expval / var / counts / probs, incl. process_raw_samples, MeasurementProcess.eigvals / wires and "
+            "MeasurementValue.items / wires / _merge: path-exhaustive execution of the REAL numpy code on every 0/1 sample array "
+            "of the shapes (shots <= 3, wires <= 3, batch 2) with symbolic real eigenvalues and measurement-value coefficients "
+            "(every comparison the code makes forks the path; path cover is checked); every result is compared with direct "
+            "arithmetic, counter-models replayed on floats. F40 (degenerate eigenvalues lost shots) fixed in repo.",
+            "Size-bounded throughout; named observables, concrete eigenvalue pools and MeasurementValue.wires are bounded native "
+            "stand-ins; bin_size for every measurement type, SampleMP dtype, traced arrays, more than 3 wires are not covered.",
             "DESIGN.md 4 C30", "E1"),
     "C36": ("proof",
             "sidecar contract on gradients/finite_difference.py finite_diff_coeffs: the real body executed symbolically for ALL n "
@@ -339,11 +344,16 @@ CLAIMED = {
             "consecutive integers containing 0 with the strategy's range and the documented N; A is the Vandermonde matrix of "
             "the shifts and b == n! e_n - so, by the assumed contract of the linear solve, sum c_i s_i^k == n! [k == n] for k < "
             "N, i.e. exactness on polynomials of degree < n + approx_order. The returned array equals the exact solution "
-            "(zero column dropped, ordered by |shift|) for the 60 enumerated triples.",
+            "(zero column dropped, ordered by |shift|) for the 60 enumerated triples. History independence of the memoised "
+            "(functools.cache) result: static numpy-aware may-alias frame obligations on every write site of every in-repo caller "
+            "(finite_diff, finite_diff_jvp, spsa_grad, re-enumerated from the ASTs each run) prove that no caller writes the shared "
+            "cached array or a view of it, backed by bounded native stand-ins that run the real transforms and compare the "
+            "memoised stencil with a recomputation.",
             "scipy.linalg.solve (A c == b; Vandermonde with distinct nodes non-singular) and the symmetry lemma for even n "
             "centred are ASSUMED; floats as reals; the returned coefficients are only checked for the enumerated sizes within a "
-            "normwise 1e-9 tolerance.",
-            "DESIGN.md 4 C36", "E1"),
+            "normwise 1e-9 tolerance; for the frame part numpy functions outside the writer list are assumed not to write their "
+            "arguments; user-side writes into the writeable cached array are outside the check.",
+            "DESIGN.md 4 C36, 7", "E1+E3"),
     "C39": ("other",
             "contract on compute_vjp_single/_multi, compute_jvp_single/_multi, vjp, jvp, batch_vjp, batch_jvp (result == explicit "
             "contraction of the Jacobian with the cotangent / tangent, shape included): the REAL functions are executed on numpy "
